@@ -5,7 +5,7 @@ PROP = dict(
     lean_module="AbraProofs.Properties.C16",
     required_theorems=["C16_fcmp_relations", "C16_key_injective", "C16_key_bits", "C16_fcmp_total_order",
                        "C16_fcmp_consistent", "C16_fcmp_is_ieee_total_order", "C16_isZero_iff", "C16_div_zero_check",
-                       "C16_no_other_error", "C16_const_consistent", "C16_chain_left_to_right", "C16_chain_two", "C16_roundInt_spec", "C16_round_spec", "C16_math_exact_ones", "C16_viaString", "C16_int_from_float_spec",
+                       "C16_no_other_error", "C16_const_consistent", "C16_chain_left_to_right", "C16_chain_two", "C16_roundInt_spec", "C16_roundInt_round_spec", "C16_round_spec", "C16_math_exact_ones", "C16_msb_spec", "C16_nan_spelling_loses_sign", "C16_viaString", "C16_int_from_float_spec",
                        "C16_int_from_float_range", "C16_float_from_int_spec"],
     harness_bin="c16",
     mismatch_is_violation=True,
@@ -24,8 +24,22 @@ PROP = dict(
          "(thorough 8000) seeded chains of length 2-3 over + - * / incl. mixed precedence) in variable/literals, "
          "all-variables and assignment form against the host's step-by-step f64 evaluation, and the right-grouped "
          "v op1 (a op2 b) as parenthesised literals, parenthesised variables, by precedence and as compound "
-         "assignment `x op1= a op2 b`; unary minus on variables and literals; int_from_float and float_from_int as function, method and on "
-         "literals incl. ties just above 2^53; every case compiled and run by the real compiler and VM; values go in as "
+         "assignment `x op1= a op2 b`; "
+         "POWER whichever way it is written (about a third of the quick-tier evaluations): ~390 (base, exponent) pairs "
+         "(thorough ~9000: 19 designed pairs such as 1e155^-2, 1e-155^2, 1e154^2, x^64 vs x^65; ten bases 0.1/0.3/0.7/"
+         "1.2/1.3/2.3/... x 19 exponents 2 3 4 -1 -2 0.5 10 64 65 1.5 ..., three quarters of that grid in quick; 300 "
+         "(thorough 9000) bases with random mantissas), each evaluated in one program by 8 routes — base in a variable / "
+         "function parameter / array element with the exponent a LITERAL (PowerFloatImm), exponent in a variable, "
+         "x.pow(y), power_float(x, y), power_float(x, literal), Num.power — every route one case, bit-exactly the host's powf; "
+         "the 13 unary MATH instructions sqrt sin cos tan asin acos atan log log2 log10 floor ceil round (330 cases, "
+         "thorough 9000; boundary set + half-integers, 0.49999999999999994, 2^52 +/- 0.5, out-of-domain arguments) and "
+         "atan2 (40, thorough 1200) as literal call, top-level variable call, operand-and-result-in-locals inside a "
+         "function, function value and method; floor/ceil/round are computed by the model, the others are compared with "
+         "the host's libm only; float->string (`.str()`, string_from_float, `\"\" .. x`; 60, thorough 2000) stored into a "
+         "local and parsed back; the arithmetic and comparison intrinsics called BY NAME (add_float .. power_float, "
+         "less_than_float .. equal_float; 100, thorough 3000) also as function values; unary minus on variables and "
+         "literals; int_from_float (function, method, literal, operand and result in function locals) and float_from_int "
+         "(function, method, literal) incl. ties just above 2^53; every case compiled and run by the real compiler and VM; values go in as "
          "exact decimal literals and come back through println + host parse (NaN sign through `r < 0.0`); distinct = "
          "distinct request; non-trivial = an operand or result is zero/subnormal/inf/NaN/beyond 2^53, or an error",
     nontrivial=lambda req, imp: ("err" in imp or "nan" in imp or any(
@@ -40,12 +54,22 @@ PROP = dict(
     assumptions=[
         "NaN payloads other than the hardware's default NaN cannot be produced by an Abra program and are covered by the theorems only",
         "sqrt/sin/cos/tan/asin/acos/atan/log/log2/log10/atan2 are outside the model's language (libm: a parameter); they are executed and compared with the host's f64 functions by the Rust-side oracle only",
+        "HOST-ORACLE PASSTHROUGH in the model driver (Drv/F64.lean): for the request kinds `arith` (incl. every power route "
+        "and the intrinsics by name), `chain`, `chainr`, `neg`, `atan2` and `math` with sqrt/sin/cos/tan/asin/acos/atan/log/"
+        "log2/log10 the request carries the host's f64 result(s) and the model returns them; what the model itself decides "
+        "there is only: DivisionByZero exactly for a ±0 divisor (also mid-chain, first one wins), the left-to-right / "
+        "right-grouped order of a chain, that a fold equals the computation (NaN results are not folded), and the rendering "
+        "of a NaN by sign. For those kinds a model mismatch can therefore only be an error-vs-value or NaN-sign difference; "
+        "the bit-exact value comparison is the Rust oracle (spec_fail) alone. Computed by the model with no host input: "
+        "`cmp` (all six comparisons), `toint`, `fromint`, `math` floor/ceil/round, `viastring`.",
         "models the repaired behaviour of D32 (a NaN result is not folded) and D33 (unary minus subtracts from -0.0)",
     ],
     design_ref="DESIGN.md §6 C16",
     level_text="Theorems over all 2^64 bit patterns about a model of the comparison arms (total_cmp key), the zero test of "
                "division in every operand form, constant folding through decimal spelling, `f as i64` (decoded sign/exponent/"
-               "mantissa: truncation toward zero, saturation, NaN to 0) and `n as f64` (nearest, ties to even); the model is "
+               "mantissa: truncation toward zero, saturation, NaN to 0) and `n as f64` (nearest, ties to even; for integers in the 64-bit range), floor/ceil/round (exact integer value of the "
+               "rounded rational; floor and ceil characterised by inequalities, round by its defining formula half away from "
+               "zero) and the left-to-right evaluation of operator chains for any arithmetic; the model is "
                "tied to /repo on every run by executing the real compiler+VM on boundary and random operands in every form.",
     level_note="Partial by design: IEEE arithmetic and libm are parameters of the model, not theorems (tied by comparing with the "
                "host's f64 operations). Trusts Rust's total_cmp/as-casts/float printing as described in the trusted base.",
